@@ -1,6 +1,6 @@
 """Claimed level per property (text for MANIFEST.json)."""
 HOOK_COMMITS = ["f85b327"]
-FIX_COMMITS = ["1fe7dcd", "1179cbc", "91f131a", "b2341ca", "1a02c9c", "cb766b4", "3c0ee07", "85dfccd", "ddc4a72", "b30657a", "8d1d16c"]
+FIX_COMMITS = ["1fe7dcd", "1179cbc", "91f131a", "b2341ca", "1a02c9c", "cb766b4", "3c0ee07", "85dfccd", "ddc4a72", "b30657a", "8d1d16c", "44baba2", "8bcbe22"]
 TB = ("Trusted: Coq 8.16.1 kernel (vm_compute only for finite sweeps/witnesses), ExtrOcamlBasic extraction + OCaml driver and the Rust harness "
       "(correspondence only, bounded by its generators). ")
 LEVELS = {
@@ -96,5 +96,13 @@ LEVELS = {
     "C20": {
         "text": "Machine-checked theorems: tombstoning rewrites only the value field of the label's value states with epoch <= cut-off (node records, epoch record, other users, key set untouched); the epoch hash is the same value; other labels' lookups and the label's own lookup (cut-off before its latest update) return the identical proof; further publishes commute with tombstoning. Model tied to the code (state, history proofs, both verification modes, publish after tombstone); on the implementation every cut-off epoch is exercised with structural equality of all proofs and the exact accept/reject pattern of Default vs AllowMissingValues.",
         "note": TB + "The 'Default rejects exactly the histories with a tombstoned entry' statement is decided by oracle + verifier correspondence.",
+    },
+    "C18": {
+        "text": "Machine-checked theorems: (a) over an abstract prime-order group with the code's prove/evaluate/verify formulas, the server's proof verifies under its public key and yields exactly the output the node label is cut from, for every key, input and nonce; a proof accepted for two different (key, curve input) pairs is a collision of the challenge hash; the output depends on gamma only; proof bytes (gamma, 16-byte c, s) parse back to the same proof; (b) the VRF input H(I2OSP(label) || freshness || version) determines (label, freshness, version) up to a BLAKE3 collision in both configurations; verify_label accepts exactly the 256-bit label made of the output and rejects any other claimed label; under VRF uniqueness no proof bytes make another label verify; commitment keys and commitments under different secret keys differ up to a collision. The input hash and commitment formulas are recomputed by the model (Gallina BLAKE3) on every run; the primitive itself is exercised by single-field alteration of every verification input on structured keys, labels and versions across the u64 range, and through directories running under several keys.",
+        "note": TB + "PARTIAL: ECVRF is modelled as an algebraic skeleton; curve arithmetic, SHA-512, hash-to-curve are not modelled, uniqueness of ECVRF is a premise. See DESIGN.md.",
+    },
+    "C19": {
+        "text": "Machine-checked theorems on a byte-exact model of the protobuf encoding and of the conversion layer: for every lookup, history, append-only proof and every component (label, element, sibling, membership, non-membership, update, single append-only proof) with the Rust types' invariants, decode(encode p) = p; hence verification after the wire equals verification of the original and distinct proofs never share an encoding; whatever bytes the decoder accepts satisfy the conversion layer's constraints (labels <= 256 bits in 32 bytes, 32-byte digests, two children, u64 numbers); varint, minimal-label and audit-blob-name round trips. The model's encoders are compared byte for byte with rust-protobuf and its decoders (three-valued: value / reject / left to the library) with the implementation on honest, corrupted and field-level altered encodings; absence of panics in decoding and in verifying decoded proofs is checked on the implementation under catch_unwind.",
+        "note": TB + "Absence of panics on arbitrary bytes is a property of the implementation checked by search (fuzzing under catch_unwind); the theorems cover the model's decoders. rust-protobuf is trusted for wire features outside the canonical subset.",
     },
 }
